@@ -85,7 +85,10 @@ ASBUILT = {
   name / index / mixed, every cached query after every step), `mps_simulators` query kinds rdm / expectation / marginal
   on programs with complex amplitudes (decided in two stages: state == reference, query == the same quantity of the held
   dense state), `perm_tracking` (a non-adjacent gate, then SWAP on every pair, then further gates; 3 and 4 qubits, all
-  simulators), `mps_lazy_numeric` (labelled numeric-only). PEPS/PEPO simulators are outside.""",
+  simulators), `mps_lazy_numeric` (labelled numeric-only). PEPS/PEPO simulators are outside.
+  Third round: `simple_update_circuits_numeric` (labelled numeric-only) — `CircuitPEPSSimpleUpdate` / `CircuitPEPOSimpleUpdate` on tree
+  geometries (chains, a star), untruncated: one- and two-site `local_expectation` for every edge in both orientations with
+  exchange-asymmetric observables == dense.""",
 "C08": """* **As built** (`props/c08.py`, 64 quick / 159 thorough, 3 s quick): `history` (≤ 3 operations from canonize / shift
   / gate (split, nonlocal, swap+split) / compress / measure / svals / rdm on L = 3–4, D = d = 2, real symbols, cutoff 0:
   after every step the recorded `(lo, hi)` window is *true* — isometry certificates for every site outside it),
@@ -125,7 +128,12 @@ ASBUILT = {
   `sweep_chain`, `canonize_mirrors_bra`, `local_update_mirrors_bra` (bra == conj(ket) tensor by tensor for complex states). Fixed:
   DMRG2 with open boundaries not renormalising after a truncating split — the reported energy could lie *below* the exact ground
   energy (§5); since that fix the DMRG2 "state normalised" goal is numeric-only (explicit division by a tensor norm), the energy
-  goals stay certified.""",
+  goals stay certified.
+  Third round: `compress_method_options_numeric` (labelled numeric-only) — DMRG2 with every `opts['bond_compress_method']`
+  (`svd`, `svd:eig`, `eig`, `svds`, `isvd`) × sweep sequence × bond cap (below / odd inside / above the exact rank) on a complex
+  Hermitian MPO with `cutoffs=0.0`: energy = Rayleigh quotient of the returned state ≥ exact ground energy, every bond ≤ cap, no energy
+  rise between untruncated updates, converged energy exact. (The split kernels themselves stay C05's symbolic subject: the seeded
+  conjugation slip in `_svd_via_eig_numba` is reported by C05 `split_exact` as well.)""",
 "C11": """* **As built** (`props/c11.py`, 67 quick, 7–15 s): `local_ham_terms` (LocalHam1D term assembly, open/periodic,
   odd/even L = 2–5), `time_bookkeeping` (symbolic `t0, dt, T` with 0 < dt, ≤ 4 steps: the sequence of applied step
   sizes sums exactly to `T − t0`, final partial step, order 1/2/4 schedules — SX forks on the float comparisons of the
